@@ -552,3 +552,88 @@ pub fn giant_op(a: &[&str]) -> Option<String> {
         _ => None,
     }
 }
+
+/// a ranker that is NOT a function of the byte: it answers from a call counter
+struct ImpureRank {
+    mode: u8,
+    calls: core::cell::Cell<u32>,
+}
+
+impl memchr::arch::all::packedpair::HeuristicFrequencyRank for ImpureRank {
+    fn rank(&self, byte: u8) -> u8 {
+        let k = self.calls.get();
+        self.calls.set(k.wrapping_add(1));
+        match self.mode {
+            0 => k as u8,                                             // 0, 1, 2, ...
+            1 => 255u8.wrapping_sub(k as u8),                          // 255, 254, ...
+            2 => if k % 2 == 0 { 0 } else { 255 },                      // alternating
+            _ => (k.wrapping_mul(1103515245).wrapping_add(12345) >> 16) as u8 ^ byte,
+        }
+    }
+}
+
+fn impure(mode: &str) -> Option<ImpureRank> {
+    let m = match mode {
+        "up" => 0,
+        "down" => 1,
+        "alt" => 2,
+        "lcg" => 3,
+        _ => return None,
+    };
+    Some(ImpureRank { mode: m, calls: core::cell::Cell::new(0) })
+}
+
+/// `pairimp <mode> <needle>`: `Pair::with_ranker` with an impure ranker: must return normally;
+/// `None` exactly for needles shorter than 2, else two distinct offsets inside the needle, <= 254
+pub fn pairimp_op(a: &[&str]) -> Option<String> {
+    if a.len() != 2 {
+        return None;
+    }
+    let needle = parse_bytes(a[1])?;
+    let rk = impure(a[0])?;
+    crate::vreset();
+    let r = std::panic::catch_unwind(std::panic::AssertUnwindSafe(|| {
+        memchr::arch::all::packedpair::Pair::with_ranker(&needle, rk)
+    }));
+    let _ = verif::take();
+    match r {
+        Err(e) => {
+            let msg = crate::util::panic_message(&*e);
+            Some(format!("{} [{}]", crate::util::classify_panic(&msg), msg.replace('\n', " ")))
+        }
+        Ok(p) => {
+            let ok = match &p {
+                None => needle.len() < 2,
+                Some(p) => {
+                    needle.len() >= 2 && p.index1() != p.index2() && (p.index1() as usize) < needle.len()
+                        && (p.index2() as usize) < needle.len() && p.index1() <= 254 && p.index2() <= 254
+                }
+            };
+            Some(format!("ok {} steps=0 loads=- oracle=valid", if ok { "valid" } else { "INVALID-PAIR" }))
+        }
+    }
+}
+
+/// `findimp <mode> <needle> <hay>`: a finder built with an impure ranker must still find the
+/// leftmost occurrence
+pub fn findimp_op(a: &[&str]) -> Option<String> {
+    if a.len() != 3 {
+        return None;
+    }
+    let needle = parse_bytes(a[1])?;
+    let hay = parse_bytes(a[2])?;
+    let rk = impure(a[0])?;
+    crate::vreset();
+    verif::set_trace(false);
+    let r = std::panic::catch_unwind(std::panic::AssertUnwindSafe(|| {
+        memchr::memmem::FinderBuilder::new().build_forward_with_ranker(rk, &needle).find(&hay)
+    }));
+    let _ = verif::take();
+    match r {
+        Err(e) => {
+            let msg = crate::util::panic_message(&*e);
+            Some(format!("{} [{}]", crate::util::classify_panic(&msg), msg.replace('\n', " ")))
+        }
+        Ok(v) => Some(format!("ok {} steps=0 loads=- oracle={}", fmt_opt(v), fmt_opt(naive_find(&hay, &needle)))),
+    }
+}
